@@ -940,6 +940,14 @@ pub fn run_c19(tier: &str, seed: u64, out: &mut Out) {
     let cfg_d = GenCfg { max_depth: 3, max_len: 3, names: NameMode::PlainR7rs, floats: FloatMode::Finite, nil_bool: true };
     let cfg_e = GenCfg { max_depth: 3, max_len: 3, names: NameMode::PlainAllDialects, floats: FloatMode::Finite, nil_bool: true };
     let singles: Vec<&str> = vec!["#nil", "#t", "#f", "#x1F", "#b-101", "#o17", "#d9", "1.5e10", "-0.25", "1e21", "5e-324", "#\\space", "#\\newline", "#\\nul", "#\\null", "#\\alarm", "#\\backspace", "#\\tab", "#\\linefeed", "#\\vtab", "#\\page", "#\\return", "#\\esc", "#\\escape", "#\\delete", "#\\rubout", "#\\altmode", "#\\x41", "#\\λ", "\"a\\x41;b\"", "\"\\n\\t\\\\\"", "#u8(1 2 255)", "#vu8(0)", "'(a b)", "`(a ,b ,@c)", "λx", "(a . b)", "#(1 #(2))", "#:kw", "(1 (2 (3)))", "\"λ→\"", "+.a", "...", "(a ;c\n b)", "#\\xD8A5D", "(a #\\xDB864 b)", "'.|x", "(a .\"b\")"];
+    // numeric literals whose digits alone are beyond the range of a double and whose
+    // exponent brings them back (and the reverse: a fraction of hundreds of zeros)
+    let long_a = format!("1{}e-320", "0".repeat(320));
+    let long_b = format!("(x -25{}.5e-400 y)", "0".repeat(330));
+    let long_c = format!("0.{}1e330", "0".repeat(320));
+    let long_d = format!("#(1{}e-309)", "0".repeat(309));
+    let mut singles = singles;
+    singles.extend([long_a.as_str(), long_b.as_str(), long_c.as_str(), long_d.as_str()]);
     let esingles: Vec<&str> = vec!["?\\xD8A5D", "[?\\154000 ?\\xdce48]", "(a . [?\\xd7ff])"];
     let m = n / 4;
     for i in 0..m + singles.len() + esingles.len() {
@@ -962,7 +970,14 @@ pub fn run_c19(tier: &str, seed: u64, out: &mut Out) {
                     check_location(out, p, &e, &case);
                     if e.classify() != Category::Eof {
                         let cut_utf8 = std::str::from_utf8(p).is_err();
-                        out.fail(if cut_utf8 { "truncation-cut-utf8" } else { "truncation" }, format!("a proper prefix of a well-formed text fails with a {:?}-category error ({}) instead of EOF", e.classify(), e), case.clone(), json!({"full": String::from_utf8_lossy(&text), "prefix": hex(p)}));
+                        // the recorded finding, by call site: the prefix ends with a complete decimal
+                        // literal whose magnitude really is beyond a double (std agrees) and the
+                        // error is the range check's
+                        let last_tok: &[u8] = { let st = p.iter().rposition(|b| b" \t\r\n\x0c()[]\";'`,".contains(b)).map(|i| i + 1).unwrap_or(0); &p[st..] };
+                        let genuinely_out_of_range = std::str::from_utf8(last_tok).ok().and_then(|t| t.parse::<f64>().ok()).map_or(false, |f| f.is_infinite())
+                            && last_tok.iter().all(|b| b.is_ascii_digit() || b"+-.eE".contains(b));
+                        let range_error = e.to_string().starts_with("number out of range");
+                        out.fail(if cut_utf8 { "truncation-cut-utf8" } else if range_error && genuinely_out_of_range { "truncation-out-of-range-literal" } else { "truncation" }, format!("a proper prefix of a well-formed text fails with a {:?}-category error ({}) instead of EOF", e.classify(), e), case.clone(), json!({"full": String::from_utf8_lossy(&text), "prefix": hex(p)}));
                     }
                     out.case(case, err_obs(&e), true);
                 }
